@@ -1991,9 +1991,9 @@ class ExpressionEvaluator(Parser):
             constant = self.match_type(NumericalConstant)
 
             # Split the literal into digits and an optional suffix.
-            # A leading 0x/0X or 0b/0B selects base 16 or 2.
+            # A leading 0x/0X, 0b/0B or 0 selects base 16, 2 or 8.
             match = re.fullmatch(
-                r"(0[xX][0-9a-fA-F]+|0[bB][01]+|[0-9]+)"
+                r"(0[xX][0-9a-fA-F]+|0[bB][01]+|0[0-7]*|[1-9][0-9]*)"
                 + r"([uU](?:ll|LL|[lL])?|(?:ll|LL|[lL])[uU]?)?",
                 constant.token,
             )
@@ -2004,6 +2004,8 @@ class ExpressionEvaluator(Parser):
                 int_value = int(digits[2:], 16)
             elif digits[:2] in ["0b", "0B"]:
                 int_value = int(digits[2:], 2)
+            elif len(digits) > 1 and digits[0] == "0":
+                int_value = int(digits, 8)
             else:
                 int_value = int(digits, 10)
 
